@@ -82,6 +82,10 @@ type Prop struct {
 	Parallel bool
 }
 
+// ExtraHooks: property-independent Extras added at run time (wave 8: the `trans-diff` check of
+// internal/transrt for properties that have go2lean targets).
+var ExtraHooks []func(p *Prop, verif string) []Extra
+
 var registry = map[string]*Prop{}
 
 func Register(p *Prop) {
